@@ -37,8 +37,11 @@ class Bus:
     def __init__(self, exe, cfg):
         self.cfg = cfg
         maxfds, tmo, polmin, cap = cfg
+        # max_incoming_unix_fds is a flow-control threshold (the bus stops reading a connection while that many descriptors of
+        # its messages are alive); it is set low so that a history passes it several times over
         limits = ('<limit name="max_message_unix_fds">%d</limit><limit name="pending_fd_timeout">%d</limit>'
-                  '<limit name="max_message_size">%d</limit>' % (maxfds, tmo, fds_msg.MAX_MESSAGE_SIZE))
+                  '<limit name="max_message_size">%d</limit><limit name="max_incoming_unix_fds">%d</limit>'
+                  % (maxfds, tmo, fds_msg.MAX_MESSAGE_SIZE, 3 * maxfds + 1))
         self.d = rawbus.Daemon(exe, policy=policy_text(polmin), limits=limits)
         self.k = self.connect()
         self.k.serial = HIGH
@@ -348,7 +351,9 @@ def run_blocked(exe, nfds=3, max_incoming=6):
         k.barrier(); k.barrier()
         res["blocked"] = d.nfds() - base
         b.close()
-        k.barrier(); k.barrier(); k.barrier()
+        # everything the sender still had in its socket is read now, at most two reads of 2048 bytes per main-loop iteration
+        for _ in range(3 + sent * 3300 // 2048):
+            k.barrier()
         res["after_recipient_left"] = d.nfds() - base
         a.close()
         k.barrier(); k.barrier(); k.barrier()
